@@ -68,4 +68,7 @@ example : advertised (cfgWith 65536) = (65536, 65536, 4096) := by decide
 example : advertised (cfgWith 16777216) = (1044480, 65536, 4096) := by decide
 example : advertised (cfgWith 100) = (100, 100, 1) := by decide
 
+/-- the count in a WRITE reply is the number of bytes written (a write cut short by a lowered TransferSize says so) -/
+theorem gen_write_reply_count : Gen.writeReplyCountIsBytesWritten = true := by decide
+
 end Props.C23
